@@ -63,7 +63,7 @@ func minimise(c Case, prop, sig string) Case {
 		r := run(c, checkers[prop], prop)
 		return r.rejected == "" && hasSig(r, sig)
 	}
-	deadline := time.Now().Add(20 * time.Second)
+	deadline := time.Now().Add(minimiseBudget)
 	for progress := true; progress && time.Now().Before(deadline); {
 		progress = false
 		for i := len(c.Ops) - 1; i >= 0; i-- {
@@ -226,3 +226,10 @@ func TestC38(t *testing.T) { hx.Run(t, spec("C38")) }
 func TestC39(t *testing.T) { hx.Run(t, spec("C39")) }
 func TestC40(t *testing.T) { hx.Run(t, spec("C40")) }
 func TestC41(t *testing.T) { hx.Run(t, spec("C41")) }
+
+var minimiseBudget = func() time.Duration {
+	if os.Getenv("P_ORACLE_SURVEY") != "" {
+		return 6 * time.Second
+	}
+	return 20 * time.Second
+}()
